@@ -56,6 +56,7 @@ def parseAtom : List String → Option Atom
   | ["require", n] => some (.require (nat! n))
   | ["utf8Range", f, lo, hi] => some (.utf8Range (f == "1") (nat! lo) (nat! hi))
   | ["maxDigits", mx] => some (.maxDigits (nat! mx))
+  | ["repOne", lo, hi, c] => some (.repOne (nat! lo) (nat! hi) (u8! c))
   | _ => none
 
 def parseCatch (s : String) : Catch :=
